@@ -65,7 +65,7 @@ theorem progress_aux : ∀ (m : Nat) (s : St), s.heap.length = m → Inv s → s
       by_cases hk' : s.reg k' = .inMap
       · -- the event's stream is checked out and polled
         have h1 : step s .recvStep =
-            { s with waker := true, heap := rest, reg := upd s.reg k' .out, pc := .b t k' } := by
+            { s with waker := true, pubW := s.polledW, heap := rest, reg := upd s.reg k' .out, pc := .b t k' } := by
           rw [hA]; simp [doAcore, hpop, hk']
         have hinv1 : Inv (step s .recvStep) := step_inv s _ hinv
         have e3 : ∀ x : St, recvN 3 x = step (step (step x .recvStep) .recvStep) .recvStep := fun _ => rfl
@@ -73,11 +73,11 @@ theorem progress_aux : ∀ (m : Nat) (s : St), s.heap.length = m → Inv s → s
         | cons item q' =>
           -- it yields: B, then C delivers
           have h2 : step (step s .recvStep) .recvStep =
-              { s with waker := true, heap := rest, reg := upd s.reg k' .out,
+              { s with waker := true, pubW := s.polledW, heap := rest, reg := upd s.reg k' .out,
                        peer := upd s.peer k' { s.peer k' with q := q' }, pc := .c t k' (.some item) } := by
             rw [h1]; simp [step, doRecv, doB, hex, doBcore, hqk]
           have h3 : recvN 3 s =
-              { s with waker := true, heap := (s.counter, k') :: rest, counter := s.counter + 1,
+              { s with waker := true, pubW := s.polledW, heap := (s.counter, k') :: rest, counter := s.counter + 1,
                        reg := upd (upd s.reg k' .out) k' .inMap,
                        peer := upd s.peer k' { s.peer k' with q := q' }, pc := .idle,
                        out := s.out ++ [(k', item)], exhausted := false } := by
@@ -88,10 +88,10 @@ theorem progress_aux : ∀ (m : Nat) (s : St), s.heap.length = m → Inv s → s
           by_cases hcl : (s.peer k').closed = true
           · -- EOF: the stream is dropped, back to A with a shorter heap
             have h2 : step (step s .recvStep) .recvStep =
-                { s with waker := true, heap := rest, reg := upd s.reg k' .out, pc := .c t k' .none } := by
+                { s with waker := true, pubW := s.polledW, heap := rest, reg := upd s.reg k' .out, pc := .c t k' .none } := by
               rw [h1]; simp [step, doRecv, doB, hex, doBcore, hqk, hcl]
             have h3 : recvN 3 s =
-                { s with waker := true, heap := rest, reg := upd (upd s.reg k' .out) k' .gone, pc := .a } := by
+                { s with waker := true, pubW := s.polledW, heap := rest, reg := upd (upd s.reg k' .out) k' .gone, pc := .a } := by
               rw [e3, h2]; simp [step, doRecv, doC]
             have hinv3 : Inv (recvN 3 s) := by
               rw [e3]; exact step_inv _ _ (step_inv _ _ hinv1)
@@ -109,11 +109,11 @@ theorem progress_aux : ∀ (m : Nat) (s : St), s.heap.length = m → Inv s → s
           · -- Pending: armed, put back, remembered as seen, back to A with a shorter heap
             have hcl' : (s.peer k').closed = false := by simpa using hcl
             have h2 : step (step s .recvStep) .recvStep =
-                { s with waker := true, heap := rest, reg := upd s.reg k' .out,
+                { s with waker := true, pubW := s.polledW, heap := rest, reg := upd s.reg k' .out,
                          peer := upd s.peer k' { s.peer k' with armed := some t }, pc := .c t k' .pend } := by
               rw [h1]; simp [step, doRecv, doB, hex, doBcore, hqk, hcl']
             have h3 : recvN 3 s =
-                { s with waker := true, heap := rest, reg := upd (upd s.reg k' .out) k' .inMap,
+                { s with waker := true, pubW := s.polledW, heap := rest, reg := upd (upd s.reg k' .out) k' .inMap,
                          peer := upd s.peer k' { s.peer k' with armed := some t }, pc := .a,
                          seen := k' :: s.seen } := by
               rw [e3, h2]; simp [step, doRecv, doC]
@@ -143,7 +143,7 @@ theorem progress_aux : ∀ (m : Nat) (s : St), s.heap.length = m → Inv s → s
             · rw [recvN_add]; exact hp
             · rw [recvN_add, ho, h3]
       · -- stale event (its stream has gone): dropped, still at A with a shorter heap
-        have h1 : step s .recvStep = { s with waker := true, heap := rest } := by
+        have h1 : step s .recvStep = { s with waker := true, pubW := s.polledW, heap := rest } := by
           rw [hA]; simp [doAcore, hpop, hk']
         have hinv1 : Inv (step s .recvStep) := step_inv s _ hinv
         have hav : Avail (step s .recvStep) := ⟨k, by rw [h1]; exact hreg, by rw [h1]; exact hq⟩
@@ -162,7 +162,7 @@ theorem progress (s : St) (hinv : Inv s) (hpc : s.pc = .idle ∨ s.pc = .parked)
     ∃ n, n ≤ 3 * s.heap.length ∧
       (recvN n (step s .pollStart)).pc = .idle ∧
       (recvN n (step s .pollStart)).out.length = s.out.length + 1 := by
-  have h1 : step s .pollStart = { s with pc := .a, notified := false, seen := [] } := by
+  have h1 : step s .pollStart = { s with pc := .a, notified := false, seen := [], polledW := s.curW } := by
     rcases hpc with h | h <;> simp [step, doPollStart, h]
   have hinv1 : Inv (step s .pollStart) := step_inv s _ hinv
   have := progress_aux s.heap.length (step s .pollStart) (by rw [h1]) hinv1 (by rw [h1])
